@@ -196,7 +196,7 @@ def predicate(prop, op, il, mres, tag):
             return ("Relic.Props.C02." + _thm(mut, k), "err",
                     "mutation '%s' alters protected content (or adds a code directory nobody vouched for) and the verifier reports success" % mut)
         if ":cms-ber-" in mut and not il.startswith("ok"):
-            return ("Relic.Props.C16.foreign_ber_forms_accepted (the CMS of a code signature in a BER form of the same value)", "ok",
+            return ("Relic.Props.C02.csblob_accept_iff (acceptance is a function of the CMS VALUE: the BER-to-DER repacking of parseSignature is a parameter of the model, tied here)", "ok",
                     "a valid third-party signature whose CMS is written with %s lengths is rejected: %s" % (mut.split(":cms-ber-")[1], il[:160]))
         if prop == "C01" and mut.endswith((":none", ":resign-same")) and not il.startswith("ok"):
             return ("Relic.Props.C01.csblob_sign_then_verify", "ok", "relic's verifier rejects what relic's signer wrote: " + il[:200])
